@@ -1008,7 +1008,7 @@ impl Paint {
             }
             Paint::Pattern(ref mut patt) => {
                 let rect = if patt.units == Units::ObjectBoundingBox {
-                    patt.rect.bbox_transform(bbox)
+                    super::bbox_transform(patt.rect, bbox)?
                 } else {
                     patt.rect
                 };
